@@ -208,10 +208,9 @@ func c13Body(r *core.Run, s Stream, p C13Case, x *core.X) {
 }
 
 func runC13(r *core.Run) {
-	level := 0
+	level := 1 // both tiers: the full base menu
 	bound := 3
 	if thorough(r) {
-		level = 1
 		bound = 4
 	}
 	if v := os.Getenv("VERIF_C13_BOUND"); v != "" {
@@ -261,9 +260,6 @@ func runC13(r *core.Run) {
 		s := s
 		for _, b := range []int{1, 2, 3, 5, 4095, 4096, 4097, 16384} {
 			for _, f := range []int{1, 0} {
-				if b <= 3 && f == 1 && !thorough(r) {
-					continue
-				}
 				p := C13Case{Stream: s.Name, Level: level, DefBuf: b, DefFrag: f}
 				core.Replay(func(x *core.X) { c13Body(r, s, p, x) }, nil)
 				totalExec++
